@@ -1,4 +1,5 @@
 import LP.Props.C05
+import LP.Props.C03Fp
 #print axioms LP.Factor.toPolyZ_mul
 #print axioms LP.Factor.toPolyZ_pow
 #print axioms LP.Factor.toPolyZ_trim
@@ -6,3 +7,4 @@ import LP.Props.C05
 #print axioms LP.Factor.C05_product_sound
 #print axioms LP.QPoly.C05_sqfree_cert_sound
 #print axioms LP.QPoly.C03_coprimeCert_sound
+#print axioms LP.FPoly.coprimeCert_sound
